@@ -4,7 +4,7 @@ tier=${1:-thorough}; shift
 seeds=${@:-1}
 cd "$(dirname "$0")/.."
 for s in $seeds; do
-  for p in $(python3 -c "import json;print(' '.join(c['property'] for c in json.load(open('MANIFEST.json'))['checks']))"); do
+  for p in $(python3 -c "import json;print(' '.join(c['property_id'] for c in json.load(open('MANIFEST.json'))['checks']))"); do
     out=$(./check $p --tier $tier --seed $s 2>&1 | grep -v "^WARNING" | tail -3 | tr '\n' ' ')
     echo "seed=$s $out"
   done
